@@ -15,6 +15,8 @@ def run(c):
         "real envUnpickler by the walker (no nil / typed-nil node; Type, Truth, Hash, Len, iteration, String do not panic) in streams dec.env-*",
         "a case that kills or hangs the worker process is attributed by re-running in announce-every-case mode; after 3 such cases the run "
         "stops (the check has failed; each costs seconds)",
+        "an index-only load (PreferIndex) is never what a build runs on (cmd/dawn build and watch load in full; indexTarget.upToDate is "
+        "constantly true by design): with PreferIndex only the no-crash judge applies to the run",
         "INT text other than canonical decimal: the model answers `either` (Go may accept or reject), so only no-crash is constrained",
     ]
     c.coverage["rule"] = (
@@ -50,6 +52,15 @@ def run(c):
                                  "a Go panic or hang, and may treat the target as up to date only if the stamp still decodes to the same "
                                  "environment", "cases": stats.get("rec.cases", 0)},
                 hist={k: v for k, v in stats.items() if k.startswith("rec.")})
+        c.count("recfile.judge", stats.get("recfile.cases", 0),
+                sample={"judge": "file-level faults on every persisted file a load reads (targets/*, sources/*, index.json): truncation to "
+                                 "0, 1, 2, half, len-1 and 10 seeded (thorough: every) prefix lengths, 49 junk / wrong-shape JSON contents "
+                                 "(only newline, only {, array, number, string, null, wrong type for each field of a record and of the "
+                                 "index, null entries, NUL bytes), NUL inside, all NUL, trailing garbage, a directory in place of the "
+                                 "file, chmod 000 (skipped as root); then Load + Run in a child with PreferIndex false and true: no Go "
+                                 "panic / fatal error / signal / hang; after a full load a changed target or source record must lead to "
+                                 "a reported error or a re-evaluation", "cases": stats.get("recfile.cases", 0)},
+                hist={k: v for k, v in stats.items() if k.startswith("recfile.")})
         if stats.get("rec.setup-failed"):
             c.broken.append("record stream: the clean build of the fixture project failed")
         pc.report(c, viols)
